@@ -707,6 +707,7 @@ def run_history(steps, optimize, eager, stop_at=None):
                 f = getattr(np if st["style"] == "np" else da, st["ufunc"])
                 if not numpy_accepts(sim, st):
                     return None, refusals
+                pre = {n: type(env[n])(env[n].expr) for n in (st["a"], st["b"])}  # the operands as they are before the update
                 try:
                     f(env[st["a"]], env[st["b"]], out=env[st["x"]])
                     sim.apply(st)
@@ -734,6 +735,8 @@ def run_history(steps, optimize, eager, stop_at=None):
                 if bad:
                     if op == "derive" and bad.get("name") == st["out"]:
                         bad["generic"] = derive_fails_on_fresh_arrays(st, env, sim)
+                    if op == "out" and bad.get("name") == st["x"]:
+                        bad["generic"] = ufunc_fails_out_of_place(st, pre, sim)
                     return bad, refusals
     return None, refusals
 
@@ -752,6 +755,19 @@ def derive_fails_on_fresh_arrays(st, env, sim):
             fresh[a] = da.from_array(sim.np[a].copy(), chunks=chunks)
         got = np.asarray(P.apply_step(st["step"], fresh, da, True).compute(**SYNC))
         want = sim.np[st["out"]]
+        return not (got.shape == want.shape and np.array_equal(got, want))
+    except Exception:
+        return True
+
+
+def ufunc_fails_out_of_place(st, pre, sim):
+    """Does `f(a, b)` WITHOUT out= (same operand expressions) fail as well?  Then the failure is a defect of the elementwise
+    expression itself (broadcasting / chunk unification / optimisation), not of the in-place update."""
+    import dask_array as da
+
+    try:
+        got = np.asarray(getattr(da, st["ufunc"])(pre[st["a"]], pre[st["b"]]).compute(**SYNC))
+        want = sim.np[st["x"]]
         return not (got.shape == want.shape and np.array_equal(got, want))
     except Exception:
         return True
@@ -778,11 +794,29 @@ def shrink_history(steps, optimize, eager, sig):
             return False
         return bad is not None and classify(ss, bad) == sig
 
+    UNARY_OPS = ("neg", "abs", "affine", "mod7", "sq")
+
     def consistent(ss):
-        # every referenced name must be defined earlier, and NumPy must accept the history
+        # every referenced name must be defined earlier, NumPy must accept the history, and the history must still
+        # respect the generator's constraints on unknown chunk sizes (dropping a compute_chunk_sizes step must not
+        # turn a valid derivation into one over misaligned unknown chunks: that is refused by design, C28)
         sim = Sim()
         try:
             for st in ss:
+                op = st["op"]
+                unk = sim.unknown
+                if op == "derive" and st["step"]["op"] not in UNARY_OPS and any(a in unk for a in st["step"].get("args", [])):
+                    return False
+                if op == "out" and any(st[k] in unk for k in ("x", "a", "b")):
+                    return False
+                if op == "setitem":
+                    v = st["value"]
+                    if isinstance(v, dict) and "ref" in v and v["ref"] in unk:
+                        return False
+                    if "mask" in st:
+                        ref = st["mask"]["ref"]
+                        if (st["x"] in unk and ref != st["x"]) or (st["x"] not in unk and ref in unk):
+                            return False
                 sim.apply(st)
         except Exception:
             return False
@@ -820,10 +854,14 @@ def check_history(ctx, steps, optimize, eager, shrink=True):
             samples[cls] = {"message": msg, "key_kinds": kinds}
     if bad is None:
         return True
-    if bad["what"] in ("compute-raises", "refused-but-compute-raises") and "concatenate3()" in bad.get("error", ""):
-        # known class (probe_known reports it): a dask value / index whose needed part spans several chunks
-        ctx.notes["known_class_hits.concatenate-array-chunks"] = ctx.notes.get("known_class_hits.concatenate-array-chunks", 0) + 1
-        return True
+    if not eager:
+        # verification only at the end cannot say WHICH step broke things: locate it by verifying after every step
+        try:
+            bad2, _ = with_timeout(60, lambda: run_history(steps, optimize, True))
+        except Hang:
+            bad2 = None
+        if bad2 is not None:
+            bad, eager = bad2, True
     if bad.get("generic"):
         ctx.notes["generic_derivation_defects"] = ctx.notes.get("generic_derivation_defects", 0) + 1
         if len(ctx.extra.setdefault("generic_derivation_defect_samples", [])) < 3:
@@ -839,7 +877,7 @@ def check_history(ctx, steps, optimize, eager, shrink=True):
                 bad = bad2
         except Exception:
             small = steps
-    ctx.fail(sig, {"history": small, "optimize": optimize, "eager": eager, "failure": bad},
+    ctx.fail(sig, {"history": small, "optimize": optimize, "eager": eager, "failure": bad, "unshrunk_length": len(steps)},
              "after an in-place operation a pool member no longer computes to its NumPy mirror (or a source changed)")
     return False
 
@@ -878,8 +916,8 @@ def probe_known(ctx):
                  {"program": "x = da.from_array(np.arange(4).reshape(2,2), chunks=1); x[0, ::-1] = 7; x.compute()", "error": repr(e)[:200]},
                  "x[int, ::-1] = scalar is accepted by __setitem__ and then x cannot be computed (IndexError while building the graph)")
 
-    # (2) a dask value (or dask index) whose part needed by one block spans several chunks: ConcatenateArrayChunks._layer
-    #     calls concatenate3(arrays, numblocks) but concatenate3 takes one argument
+    # (2) a dask value whose part needed by one block spans several chunks (fixed in fbe1419: ConcatenateArrayChunks._layer
+    #     called concatenate3(arrays, numblocks)); kept as a regression probe
     try:
         x = da.from_array(np.arange(4), chunks=4)
         x[:] = da.from_array(np.arange(4) * 10, chunks=2)
